@@ -259,10 +259,11 @@ def version(ctx, rule):
 
 def who_calls_vlq(ctx, rule):
     cg = CallGraph(ctx.facts)
-    callers = cg.callers("vlq::encode_vlq")
+    import pf as _pf
+    callers = sorted(set(_pf._root(c) for c in cg.callers("vlq::encode_vlq")))  # a closure counts as its function
     ctx.check(callers == sorted([DIFF, "vlq::generate_vlq_segment"]), rule, "vlq::encode_vlq", "callers",
               "encode_vlq is called only by encode_vlq_diff (difference of two widened u32) and the public generate_vlq_segment", detail=str(callers))
-    c2 = cg.callers(DIFF)
+    c2 = sorted(set(_pf._root(c) for c in cg.callers(DIFF)))
     ctx.check(c2 == [SM], rule, DIFF, "callers", "encode_vlq_diff is called only by serialize_mappings", detail=str(c2))
     b2 = ctx.body(DIFF)
     calls = q.calls_to(b2, "vlq::encode_vlq")
